@@ -7,6 +7,8 @@ import RbV.Gen.Dna2Int
 import RbV.Thm.GenSrcRankSelect
 import RbV.Thm.GenSrcWavelet
 import RbV.Thm.GenSrcWaveletCompose
+import RbV.Thm.GenSrcSelect
+import RbV.Thm.GenSrcWaveletNew
 /-!
 # C17 — rank/select and wavelet-matrix queries equal naive counting
 
@@ -258,7 +260,7 @@ theorem rank0_source_eq_model (bl : List Bool → Nat) (cd8 : Nat → Nat) (bits
 /-- **generated code = specification**: the translated `superblocks` followed by the translated `rank_1` / `rank_0` return
 the number of 1-bits / 0-bits among positions `0..=i` (`None` exactly for `i ≥ n`), for every bit vector of fewer than 2^60
 bits, every `k ≥ 1`, every `i`; no operation panics -/
-theorem rank_source_exact (bl : List Bool → Nat) (cd8 : Nat → Nat) (bits : List Bool) (k : Nat) (hk : 1 ≤ k)
+theorem rank_source_exact_on_superblocks (bl : List Bool → Nat) (cd8 : Nat → Nat) (bits : List Bool) (k : Nat) (hk : 1 ≤ k)
     (hn : bits.length < 2 ^ 60) (hcd : CeilOk cd8 bits.length) (sbs0 : List SbRank) (i : Nat) :
     ∃ sbs1, Gen.SrcRankSelect.superblocks (σ := SbRank) blockByte List.length bl cd8
           SbRank.first SbRank.some SbRank.val true bits.length (k * 32) bits = Rs.Res.ok sbs1 ∧
@@ -282,6 +284,138 @@ example : Gen.SrcRankSelect.superblocks (σ := SbRank) blockByte List.length (fu
     SbRank.first SbRank.some SbRank.val true 40 0 exBits = Rs.Res.panic := by decide
 
 end rankselect_source
+
+/-! ## the constructor and select, translated from the source text (session 5, gensel; docs/notes/GEN.md, C17.md)
+
+`RankSelect::new`, `select_x`, `select_1`, `select_0` are part of `RbV/Gen/SrcRankSelect.lean` now.  Additionally *assumed*
+(external to rust-bio): `self.bits.block_len()` = `⌈len / 8⌉` (bv crate; hypothesis `hbl`), and the documented contract of
+`<[T]>::binary_search` (`BSearchOk`: on a slice sorted by `Ord`, `Ok(i)` is the index of a matching element, `Err(i)` the
+insertion point) for the order `SbRank.lt` — the mirror of `impl Ord for SuperblockRank`, which is not translated.
+Proofs: `RbV/Thm/GenSrcSelect.lean`, `RbV/Lemmas/RankSelectSorted.lean`. -/
+section select_source
+open RbV.Model.RankSelect RbV.Thm.GenSrcRankSelect RbV.Thm.GenSrcSelect RbV.Lemmas.RankSelectSorted
+
+/-- **`RankSelect::new`, as written, builds the model's structure** (`n`, the bits, both tables of `fn superblocks`, `s = 32k`, `k`) -/
+theorem rankselect_new_source_eq_model (bl : List Bool → Nat) (cd8 : Nat → Nat) (bits : List Bool) (k : Nat) (hk : 1 ≤ k)
+    (hks : k * 32 < 2 ^ 64) (hlen : bits.length < 2 ^ 60) (hcd : CeilOk cd8 bits.length) :
+    Gen.SrcRankSelect.new (σ := SbRank) blockByte List.length bl cd8 SbRank.first SbRank.some SbRank.val bits k
+      = Rs.Res.ok (bits.length, bits, superblocks true bits.length (k * 32) (getBlock bits),
+          superblocks false bits.length (k * 32) (getBlock bits), k * 32, k) :=
+  new_eq_model bl cd8 bits k hk hks hlen hcd
+
+/-- **the table `fn superblocks` builds is sorted** w.r.t. the order of `SuperblockRank`, so the precondition of
+`binary_search` holds at the call in `select_x` -/
+theorem superblocks_table_sorted (t : Bool) (bits : List Bool) (k : Nat) (hk : 1 ≤ k) (a b : Nat) (hab : a < b)
+    (hb : b < (superblocks t bits.length (k * 32) (getBlock bits)).length) :
+    SbRank.lt ((superblocks t bits.length (k * 32) (getBlock bits))[b])
+      ((superblocks t bits.length (k * 32) (getBlock bits))[a]'(by omega)) = false :=
+  superblocks_sorted t bits k hk a b hab hb
+
+/-- the assumed contract of `binary_search` is satisfiable: the linear search of the mirror model (`searchIdx`) has it -/
+theorem binary_search_contract_satisfiable : BSearchOk SbRank.lt searchIdx := searchIdx_ok
+
+/-- **`RankSelect::select_x`, as written, is the model's `selectX`** for both polarities: binary search (any function with
+the documented contract), block scan, bit scan with the early `return`, padding bits skipped -/
+theorem select_source_eq_model (bl : List Bool → Nat) (cd8 : Nat → Nat) (bs : List SbRank → SbRank → Nat)
+    (isMatch : Nat → Bool) (countAll : Nat → Nat) (b : Bool) (bits : List Bool) (k : Nat) (hk : 1 ≤ k)
+    (hks : k * 32 < 2 ^ 64) (hn : bits ≠ []) (hlen : bits.length < 2 ^ 60) (hbl : bl bits = (bits.length + 7) / 8)
+    (hbs : BSearchOk SbRank.lt bs) (hcl : ClosuresOk b bits isMatch countAll) (sbs1 sbs0 : List SbRank) (j : Nat) :
+    Gen.SrcRankSelect.selectX (σ := SbRank) blockByte List.length bl cd8 SbRank.first SbRank.some SbRank.val bs isMatch
+        countAll bits.length bits sbs1 sbs0 (k * 32) k j (superblocks b bits.length (k * 32) (getBlock bits))
+      = Rs.Res.ok (selectX bits.length (k * 32) (getBlock bits) (superblocks b bits.length (k * 32) (getBlock bits)) b j) :=
+  selectX_eq_model bl cd8 bs isMatch countAll b bits k hk hks hn hlen hbl hbs hcl sbs1 sbs0 j
+
+/-- **`select_1` / `select_0`, as written** (the closures they pass and the table they pick) **are the model's `selectX`**
+with polarity 1 on the 1-table resp. polarity 0 on the 0-table -/
+theorem select_wrappers_source_eq_model (bl : List Bool → Nat) (cd8 : Nat → Nat) (bs : List SbRank → SbRank → Nat)
+    (bits : List Bool) (k : Nat) (hk : 1 ≤ k) (hks : k * 32 < 2 ^ 64) (hn : bits ≠ []) (hlen : bits.length < 2 ^ 60)
+    (hbl : bl bits = (bits.length + 7) / 8) (hbs : BSearchOk SbRank.lt bs) (j : Nat) :
+    Gen.SrcRankSelect.select1 (σ := SbRank) blockByte List.length bl cd8 SbRank.first SbRank.some SbRank.val bs
+        bits.length bits (superblocks true bits.length (k * 32) (getBlock bits))
+        (superblocks false bits.length (k * 32) (getBlock bits)) (k * 32) k j
+      = Rs.Res.ok (selectX bits.length (k * 32) (getBlock bits) (superblocks true bits.length (k * 32) (getBlock bits)) true j) ∧
+    Gen.SrcRankSelect.select0 (σ := SbRank) blockByte List.length bl cd8 SbRank.first SbRank.some SbRank.val bs
+        bits.length bits (superblocks true bits.length (k * 32) (getBlock bits))
+        (superblocks false bits.length (k * 32) (getBlock bits)) (k * 32) k j
+      = Rs.Res.ok (selectX bits.length (k * 32) (getBlock bits) (superblocks false bits.length (k * 32) (getBlock bits)) false j) :=
+  ⟨select1_eq_model bl cd8 bs bits k hk hks hn hlen hbl hbs _ j, select0_eq_model bl cd8 bs bits k hk hks hn hlen hbl hbs _ j⟩
+
+/-- **`select` exact, from the translated constructor**: `RankSelect::new(bits, k)` as written, then `select_1(j)` /
+`select_0(j)` as written on the struct it returns, give `selectRef` — the position of the `j`-th 1-bit / 0-bit, `None` for
+`j = 0` and beyond the count — for every non-empty bit vector of fewer than 2^60 bits, every `k ≥ 1`, every `j`; nothing
+panics.  No model-side constructor in the statement. -/
+theorem select_source_exact (bl : List Bool → Nat) (cd8 : Nat → Nat) (bs : List SbRank → SbRank → Nat)
+    (bits : List Bool) (k : Nat) (hk : 1 ≤ k) (hks : k * 32 < 2 ^ 64) (hn : bits ≠ []) (hlen : bits.length < 2 ^ 60)
+    (hcd : CeilOk cd8 bits.length) (hbl : bl bits = (bits.length + 7) / 8) (hbs : BSearchOk SbRank.lt bs) (j : Nat) :
+    ∃ n bits' sbs1 sbs0 s k',
+      Gen.SrcRankSelect.new (σ := SbRank) blockByte List.length bl cd8 SbRank.first SbRank.some SbRank.val bits k
+        = Rs.Res.ok (n, bits', sbs1, sbs0, s, k') ∧
+      Gen.SrcRankSelect.select1 (σ := SbRank) blockByte List.length bl cd8 SbRank.first SbRank.some SbRank.val bs
+        n bits' sbs1 sbs0 s k' j = Rs.Res.ok (selectRef true bits j) ∧
+      Gen.SrcRankSelect.select0 (σ := SbRank) blockByte List.length bl cd8 SbRank.first SbRank.some SbRank.val bs
+        n bits' sbs1 sbs0 s k' j = Rs.Res.ok (selectRef false bits j) := by
+  obtain ⟨h1, h0⟩ := select_wrappers_source_eq_model bl cd8 bs bits k hk hks hn hlen hbl hbs j
+  rw [RbV.Lemmas.RankSelectModel.select_correct true bits k hk hn j] at h1
+  rw [RbV.Lemmas.RankSelectModel.select_correct false bits k hk hn j] at h0
+  exact ⟨_, _, _, _, _, _, new_eq_model bl cd8 bits k hk hks hlen hcd, h1, h0⟩
+
+/-- **`rank` exact, from the translated constructor** (replaces the former statement that started from the translated
+`fn superblocks`, kept as `rank_source_exact_on_superblocks`): `RankSelect::new(bits, k)` as written, then `rank_1(i)` /
+`rank_0(i)` as written on the struct it returns = the number of 1-bits / 0-bits among positions `0..=i`, `None` beyond the end -/
+theorem rank_source_exact (bl : List Bool → Nat) (cd8 : Nat → Nat) (bits : List Bool) (k : Nat) (hk : 1 ≤ k)
+    (hks : k * 32 < 2 ^ 64) (hlen : bits.length < 2 ^ 60) (hcd : CeilOk cd8 bits.length) (i : Nat) :
+    ∃ n bits' sbs1 sbs0 s k',
+      Gen.SrcRankSelect.new (σ := SbRank) blockByte List.length bl cd8 SbRank.first SbRank.some SbRank.val bits k
+        = Rs.Res.ok (n, bits', sbs1, sbs0, s, k') ∧
+      Gen.SrcRankSelect.rank1 (σ := SbRank) blockByte List.length bl cd8 SbRank.first SbRank.some SbRank.val
+        n bits' sbs1 sbs0 s k' i = Rs.Res.ok (rankRef true bits i) ∧
+      Gen.SrcRankSelect.rank0 (σ := SbRank) blockByte List.length bl cd8 SbRank.first SbRank.some SbRank.val
+        n bits' sbs1 sbs0 s k' i = Rs.Res.ok (rankRef false bits i) :=
+  ⟨_, _, _, _, _, _, new_eq_model bl cd8 bits k hk hks hlen hcd, rank_on_superblocks bl cd8 bits k hk hlen _ i⟩
+
+/-- **rank and select of the translated code are mutually inverse**: on the struct the translated `new` returns, whenever the
+translated `select_b(j)` answers `Some(p)` the translated `rank_b(p)` answers `Some(j)` (both polarities) -/
+theorem rank_select_source_inverse (bl : List Bool → Nat) (cd8 : Nat → Nat) (bs : List SbRank → SbRank → Nat)
+    (bits : List Bool) (k : Nat) (hk : 1 ≤ k) (hks : k * 32 < 2 ^ 64) (hn : bits ≠ []) (hlen : bits.length < 2 ^ 60)
+    (hcd : CeilOk cd8 bits.length) (hbl : bl bits = (bits.length + 7) / 8) (hbs : BSearchOk SbRank.lt bs) (j p : Nat) :
+    ∃ n bits' sbs1 sbs0 s k',
+      Gen.SrcRankSelect.new (σ := SbRank) blockByte List.length bl cd8 SbRank.first SbRank.some SbRank.val bits k
+        = Rs.Res.ok (n, bits', sbs1, sbs0, s, k') ∧
+      (Gen.SrcRankSelect.select1 (σ := SbRank) blockByte List.length bl cd8 SbRank.first SbRank.some SbRank.val bs
+          n bits' sbs1 sbs0 s k' j = Rs.Res.ok (some p) →
+        Gen.SrcRankSelect.rank1 (σ := SbRank) blockByte List.length bl cd8 SbRank.first SbRank.some SbRank.val
+          n bits' sbs1 sbs0 s k' p = Rs.Res.ok (some j)) ∧
+      (Gen.SrcRankSelect.select0 (σ := SbRank) blockByte List.length bl cd8 SbRank.first SbRank.some SbRank.val bs
+          n bits' sbs1 sbs0 s k' j = Rs.Res.ok (some p) →
+        Gen.SrcRankSelect.rank0 (σ := SbRank) blockByte List.length bl cd8 SbRank.first SbRank.some SbRank.val
+          n bits' sbs1 sbs0 s k' p = Rs.Res.ok (some j)) := by
+  obtain ⟨h1, h0⟩ := select_wrappers_source_eq_model bl cd8 bs bits k hk hks hn hlen hbl hbs j
+  rw [RbV.Lemmas.RankSelectModel.select_correct true bits k hk hn j] at h1
+  rw [RbV.Lemmas.RankSelectModel.select_correct false bits k hk hn j] at h0
+  obtain ⟨r1, r0⟩ := rank_on_superblocks bl cd8 bits k hk hlen (superblocks false bits.length (k * 32) (getBlock bits)) p
+  refine ⟨_, _, _, _, _, _, new_eq_model bl cd8 bits k hk hks hlen hcd, ?_, ?_⟩
+  · intro h
+    rw [h1] at h
+    rw [r1, rank_select_inverse true bits j p (Rs.Res.ok.inj h)]
+  · intro h
+    rw [h0] at h
+    rw [r0, rank_select_inverse false bits j p (Rs.Res.ok.inj h)]
+
+-- non-vacuity on the 40-bit vector `exBits` (k = 1): the translated functions, evaluated; `searchIdx` plays `binary_search`
+example : Gen.SrcRankSelect.new (σ := SbRank) blockByte List.length (fun b => (b.length + 7) / 8) (fun x => (x + 7) / 8)
+    SbRank.first SbRank.some SbRank.val exBits 1
+    = Rs.Res.ok (40, exBits, [SbRank.first 0, SbRank.some 0], [SbRank.first 0, SbRank.first 32], 32, 1) := by decide
+example : Gen.SrcRankSelect.select1 (σ := SbRank) blockByte List.length (fun b => (b.length + 7) / 8) (fun x => (x + 7) / 8)
+    SbRank.first SbRank.some SbRank.val searchIdx 40 exBits [SbRank.first 0, SbRank.some 0]
+    [SbRank.first 0, SbRank.first 32] 32 1 4 = Rs.Res.ok (some 39) := by decide
+example : Gen.SrcRankSelect.select0 (σ := SbRank) blockByte List.length (fun b => (b.length + 7) / 8) (fun x => (x + 7) / 8)
+    SbRank.first SbRank.some SbRank.val searchIdx 40 exBits [SbRank.first 0, SbRank.some 0]
+    [SbRank.first 0, SbRank.first 32] 32 1 37 = Rs.Res.ok none := by decide
+example : Gen.SrcRankSelect.select0 (σ := SbRank) blockByte List.length (fun b => (b.length + 7) / 8) (fun x => (x + 7) / 8)
+    SbRank.first SbRank.some SbRank.val searchIdx 40 exBits [SbRank.first 0, SbRank.some 0]
+    [SbRank.first 0, SbRank.first 32] 32 1 34 = Rs.Res.ok (some 34) := by decide
+
+end select_source
 
 /-! ## wavelet matrix: function bodies translated from the source text, and the composition wavelet ∘ rank/select
 
@@ -382,6 +516,57 @@ example : Gen.SrcWavelet.rank (srcRank0 (fun _ => 0) (fun x => (x + 7) / 8)) (sr
     ((build (fun v => Gen.Dna2Int.table.getD v 0) [65, 67, 78, 36, 78, 65]).map (·.zeros))
     ((build (fun v => Gen.Dna2Int.table.getD v 0) [65, 67, 78, 36, 78, 65]).map mkRS) Gen.Dna2Int.table 78 6
     = Rs.Res.panic := by decide
+
+/-- **`WaveletMatrix::new`, as written, builds the levels of the mirror model** (`build_partlevel`, translated too, is called
+twice per level): `(width, 3, zeros, levels)`; `rsNew` stands for `RankSelect::new(_, 1)`, `mk` for what it returns -/
+theorem wavelet_new_source_eq_model {ρ : Type} (rank0 rank1 : ρ → Nat → Rs.Res (Option Nat))
+    (rsNew : List Bool → Nat → Rs.Res ρ) (mk : List Bool → ρ) (table : List Nat) (text : List Nat)
+    (hW : text.length < 2 ^ 63) (hrs : ∀ bits : List Bool, bits.length = text.length → rsNew bits 1 = Rs.Res.ok (mk bits))
+    (hv : ∀ v ∈ text, v < table.length) :
+    Gen.SrcWavelet.new rank0 rank1 RbV.Thm.GenSrcWaveletNew.bvSetBit RbV.Thm.GenSrcWaveletNew.bvNewFill rsNew table text
+      = Rs.Res.ok (text.length, 3, (build (fun v => table.getD v 0) text).map (·.zeros),
+          (build (fun v => table.getD v 0) text).map (fun lv => mk lv.bits)) :=
+  RbV.Thm.GenSrcWaveletNew.new_eq_model rank0 rank1 rsNew mk table text hW hrs hv
+
+/-- **end to end, no model-side constructor**: `WaveletMatrix::new(text)` *as written* (with `build_partlevel` as written
+and `RankSelect::new(_, 1)` as written for every level), followed by `WaveletMatrix::rank(c, p)` *as written* over
+`RankSelect::rank_0` / `rank_1` *as written*, returns the number of occurrences of `c` in `text[0..=p]` — for every text
+over A,C,G,T,N,$ of fewer than 2^60 symbols, every such `c`, every `p < |text|`; no operation of any of the functions
+panics.  `(W, H, zs, lvs)` is whatever the translated constructor returns. -/
+theorem wavelet_source_rank_exact (bl : List Bool → Nat) (cd8 : Nat → Nat) (text : List Nat)
+    (hn : text.length < 2 ^ 60) (hcd : RbV.Thm.GenSrcRankSelect.CeilOk cd8 text.length) (c p : Nat)
+    (hp : p < text.length) (hc : c ∈ dnaSyms) (htext : ∀ x ∈ text, x ∈ dnaSyms) :
+    ∃ W H zs lvs,
+      Gen.SrcWavelet.new (srcRank0F bl cd8) (srcRank1F bl cd8) RbV.Thm.GenSrcWaveletNew.bvSetBit
+        RbV.Thm.GenSrcWaveletNew.bvNewFill (srcRsNew bl cd8) Gen.Dna2Int.table text = Rs.Res.ok (W, H, zs, lvs) ∧
+      Gen.SrcWavelet.rank (srcRank0F bl cd8) (srcRank1F bl cd8) W H zs lvs Gen.Dna2Int.table c p
+        = Rs.Res.ok (occ text c p) := by
+  have htab : Gen.Dna2Int.table.length = 128 := (tableOk_sound _ dna2int_generated_ok).1
+  have h128 : ∀ a ∈ dnaSyms, a < 128 := by decide
+  have hnew := RbV.Thm.GenSrcWaveletNew.new_eq_model (srcRank0F bl cd8) (srcRank1F bl cd8) (srcRsNew bl cd8) mkRSF
+    Gen.Dna2Int.table text (by omega)
+    (fun bits hb => srcRsNew_one bl cd8 bits (by omega) (by rw [hb]; exact hcd))
+    (fun v hv => by rw [htab]; exact h128 v (htext v hv))
+  refine ⟨_, _, _, _, hnew, ?_⟩
+  have hok := levels_ok_full bl cd8 (fun v => Gen.Dna2Int.table.getD v 0) 3 text hn
+  have hlen : (buildLevels (fun v => Gen.Dna2Int.table.getD v 0) 3 text).length = 3 :=
+    RbV.Lemmas.Wavelet.length_buildLevels _ 3 text
+  have hc128 : c < Gen.Dna2Int.table.length := by rw [htab]; exact h128 c hc
+  have h := rank_eq_model (srcRank0F bl cd8) (srcRank1F bl cd8) text.length (by omega) _ _ _ hok (by rw [hlen]; omega)
+    Gen.Dna2Int.table c hc128 p hp
+  rw [hlen] at h
+  show Gen.SrcWavelet.rank (srcRank0F bl cd8) (srcRank1F bl cd8) text.length 3
+    ((buildLevels (fun v => Gen.Dna2Int.table.getD v 0) 3 text).map (·.zeros))
+    ((buildLevels (fun v => Gen.Dna2Int.table.getD v 0) 3 text).map (fun lv => mkRSF lv.bits)) Gen.Dna2Int.table c p = _
+  rw [h]
+  exact congrArg Rs.Res.ok (wavelet_rank_correct_generated text c p hp hc htext)
+
+-- non-vacuity: "ACN$NA" — translated `new`, then translated `rank('N', 4)` on what it returned
+example : (Gen.SrcWavelet.new (srcRank0F (fun _ => 0) (fun x => (x + 7) / 8)) (srcRank1F (fun _ => 0) (fun x => (x + 7) / 8))
+      RbV.Thm.GenSrcWaveletNew.bvSetBit RbV.Thm.GenSrcWaveletNew.bvNewFill (srcRsNew (fun _ => 0) (fun x => (x + 7) / 8))
+      Gen.Dna2Int.table [65, 67, 78, 36, 78, 65] >>= fun r =>
+    Gen.SrcWavelet.rank (srcRank0F (fun _ => 0) (fun x => (x + 7) / 8)) (srcRank1F (fun _ => 0) (fun x => (x + 7) / 8))
+      r.1 r.2.1 r.2.2.1 r.2.2.2 Gen.Dna2Int.table 78 4) = Rs.Res.ok 2 := by decide
 
 end wavelet_source
 
